@@ -67,6 +67,8 @@ InvPages == { <<Inv(fn, <<Pos(v)>>)>> : fn \in {"echo", "err", "pre", "tpl"}, v 
                    <<Inv("err", <<>>), Inv("echo", <<Pos(<<Txt(<<"b">>)>>)>>), Inv("err", <<>>)>>,
                    <<If(<<Inv("err", <<>>)>>, <<Inv("echo", <<Pos(<<Txt(<<"c">>)>>)>>)>>, <<>>)>>,
                    <<Call("A", <<>>)>> }
+SiblingPages == { <<Call(a, <<Pos(<<Txt(<<"1">>)>>)>>), Txt(<<"SP">>), Call(b, <<Pos(<<Txt(<<"2">>)>>)>>)>> : a \in {"T1", "T2", "Sp"}, b \in {"T1", "T2", "Sp"} }
+                \cup { <<Call("T1", <<Pos(<<Call(a, <<>>), Call(b, <<Pos(<<Txt(<<"x">>)>>)>>)>>)>>)>> : a \in {"T2", "Sp"}, b \in {"T1", "T2"} }
 CycPages == { <<Call("A", <<>>)>>, <<Call("A", <<Pos(<<Txt(<<"a">>)>>)>>)>>,
               <<Txt(<<"p">>), Call("A", <<>>), Call("T1", <<Pos(<<Call("A", <<Pos(<<Txt(<<"a">>)>>)>>)>>)>>), Txt(<<"q">>)>> }
 
@@ -97,41 +99,43 @@ Needs == { {}, {"T1"}, {"T2"}, {"Sp", "T1"} }
 
 Cases ==
   CASE Universe = "C16" ->
-         { [lib |-> l, need |-> {"T2"}, page |-> p, o |-> o] :
+         { [lib |-> l, need |-> {"T2"}, page |-> p, o |-> o, enw |-> TRUE] :
              l \in AcyclicLibs \cup {LSelf, LArg, LInvPre}, p \in CallPages \cup PfnPages \cup InvPages \cup CycPages, o \in Opts16 }
-         \cup { [lib |-> LibBase, need |-> {"T2"}, page |-> p, o |-> o] : p \in LoopPages, o \in Opts16 }
+         \cup { [lib |-> LibBase, need |-> {"T2"}, page |-> p, o |-> o, enw |-> TRUE] : p \in LoopPages, o \in Opts16 }
     [] Universe = "C16Q" ->
-         { [lib |-> l, need |-> {"T2"}, page |-> p, o |-> o] :
+         { [lib |-> l, need |-> {"T2"}, page |-> p, o |-> o, enw |-> TRUE] :
              l \in {LibBase, LArg, LInvPre}, p \in PfnPages \cup InvPages \cup CycPages, o \in Opts16 }
-         \cup { [lib |-> LibBase, need |-> {"T2"}, page |-> p, o |-> o] : p \in LoopPages, o \in Opts16 }
+         \cup { [lib |-> LibBase, need |-> {"T2"}, page |-> p, o |-> o, enw |-> TRUE] : p \in LoopPages, o \in Opts16 }
     [] Universe = "C05" ->
-         { [lib |-> l, need |-> {}, page |-> p, o |-> OptAll] : l \in CyclicLibs \cup AcyclicLibs, p \in CycPages \cup DeepPages }
+         { [lib |-> l, need |-> {}, page |-> p, o |-> OptAll, enw |-> TRUE] : l \in CyclicLibs \cup AcyclicLibs, p \in CycPages \cup DeepPages }
     [] Universe = "C13" ->
-         { [lib |-> l, need |-> nd, page |-> p, o |-> o] :
-             l \in AcyclicLibs, nd \in Needs, p \in CallPages \cup PfnPages, o \in OptsSel \cup OptsFullHooks }
+         { [lib |-> l, need |-> nd, page |-> p, o |-> o, enw |-> e] :
+             l \in AcyclicLibs, nd \in Needs, p \in CallPages \cup PfnPages \cup SiblingPages, o \in OptsSel \cup OptsFullHooks, e \in BOOLEAN }
     [] Universe = "C13Q" ->
-         { [lib |-> l, need |-> nd, page |-> p, o |-> o] :
+         { [lib |-> l, need |-> nd, page |-> p, o |-> o, enw |-> TRUE] :
              l \in {LibBase}, nd \in {{}, {"T2"}, {"Sp", "T1"}}, p \in CallPages \cup PfnPages, o \in OptsSelQ \cup OptsFullHooks }
+         \cup { [lib |-> LibBase, need |-> nd, page |-> p, o |-> o, enw |-> e] :
+                  nd \in {{"T2"}, {"Sp", "T1"}}, p \in SiblingPages, o \in OptsSelQ, e \in BOOLEAN }
     [] Universe = "C05Q" ->
-         { [lib |-> l, need |-> {}, page |-> p, o |-> OptAll] : l \in CyclicLibs, p \in CycPages }
-         \cup { [lib |-> LibBase, need |-> {}, page |-> p, o |-> OptAll] : p \in DeepPagesQ }
+         { [lib |-> l, need |-> {}, page |-> p, o |-> OptAll, enw |-> TRUE] : l \in CyclicLibs, p \in CycPages }
+         \cup { [lib |-> LibBase, need |-> {}, page |-> p, o |-> OptAll, enw |-> TRUE] : p \in DeepPagesQ }
     [] Universe = "BLOWUP" ->
-         { [lib |-> LAlt, need |-> {}, page |-> <<Call("A", <<>>)>>, o |-> OptAll] }
+         { [lib |-> LAlt, need |-> {}, page |-> <<Call("A", <<>>)>>, o |-> OptAll, enw |-> TRUE] }
     [] Universe = "FILE" ->
          \* recorded / externally generated cases (V direction): sets arrive as JSON arrays
          LET raw == JsonDeserialize(IOEnv.CASE_FILE)
              SetOf(q) == {q[i] : i \in 1..Len(q)}
          IN { [lib |-> raw[i].lib, need |-> SetOf(raw[i].need), page |-> raw[i].page,
-               o |-> [raw[i].o EXCEPT !.exp = SetOf(@), !.nots = SetOf(@)]] : i \in 1..Len(raw) }
+               o |-> [raw[i].o EXCEPT !.exp = SetOf(@), !.nots = SetOf(@)], enw |-> TRUE] : i \in 1..Len(raw) }
     [] Universe = "C04M" ->
-         { [lib |-> l, need |-> {}, page |-> p, o |-> OptAll] : l \in AcyclicLibs, p \in CallPages \cup PfnPages }
+         { [lib |-> l, need |-> {}, page |-> p, o |-> OptAll, enw |-> TRUE] : l \in AcyclicLibs, p \in CallPages \cup PfnPages }
 
 VARIABLE case
 Init == case \in Cases
 Next == UNCHANGED case
 Spec == Init /\ [][Next]_case
 
-XOf(c, dev) == [lib |-> c.lib, need |-> c.need, o |-> c.o, Dev |-> dev]
+XOf(c, dev) == [lib |-> c.lib, need |-> c.need, o |-> c.o, Dev |-> dev, enwikt |-> c.enw]
 PageStack == <<[t |-> "page", n |-> "Pg"]>>
 Run(c, dev) == ExpandCall(c.page, PageStack, XOf(c, dev))
 
@@ -186,7 +190,7 @@ LawsR(r) == WorkBoundedR(r) /\ StackRestoredR(r) /\ TwinIsReferenceR(r) /\ CutsR
 
 EmitR(r) ==
   LET a == IF Known = {} THEN r ELSE Run(case, Known)
-  IN PrintT(<<"CASE", ToJson([lib |-> case.lib, need |-> case.need, page |-> case.page, o |-> case.o,
+  IN PrintT(<<"CASE", ToJson([lib |-> case.lib, need |-> case.need, page |-> case.page, o |-> case.o, enw |-> case.enw,
                                out |-> r.out, stack |-> r.st.stack, msgs |-> r.st.msgs, hooks |-> r.st.hooks,
                                ev |-> r.st.ev,
                                asis_out |-> a.out, asis_stack |-> a.st.stack])>>)
